@@ -1,6 +1,8 @@
 """C09 -- existing outputs are never overwritten and _SUCCESS marks only complete saves.
 
-case = (saver, max_retries, parts, pre, wfaults, cfaults)
+case = (saver, max_retries, parts, pre, wfaults, cfaults, ext)
+  ext      codec extension appended to the target's name: '' | '.gz' | '.bz2' | '.xz' | '.lzma' | '.zip' | '.tar' |
+           '.tar.gz' | '.tar.bz2' (part files then carry the tail from its last dot; file contents are observed decoded)
   saver    0 saveAsTextFile, 1 saveAsPickleFile; 2, 3: the same, the target given as file:// URL
   parts    text: [[line, ...], ...]; pickle: [(pickle.dumps(elements), elements), ...]  (pickle is a black box
            whose output is handed to the model)
@@ -28,14 +30,18 @@ from pysparkling import Context
 
 ID = 'C09'
 KERNELS = ['Gen/SaveOrder.v: text_steps', 'Gen/SaveOrder.v: pickle_steps', 'Gen/SaveOrder.v: runjob_lock_release',
-           'Gen/SaveOrder.v: runjob_local_kind',
+           'Gen/SaveOrder.v: runjob_local_kind', 'Gen/SaveOrder.v: marker_name',
            'Gen/SaveOrder.v: part_name']
 SHARD = 120
 TEXT, PICKLE = 0, 1   # + 2: the same saver called with a file:// URL of the target
 ABSENT = (0,)
+EXTS = ['.gz', '.bz2', '.xz', '.lzma', '.zip', '.tar', '.tar.gz', '.tar.bz2']
+ALL_BYTES = 5000   # a torn write 'after ALL_BYTES bytes' wrote everything (compressed or not) before it raised
 
 RULE = ('cases (saver, max_retries, partitions, pre-state, write-fault plan, compute-fault plan). Exhaustive part: '
-        'text and pickle savers (also called with a file:// URL of the target) x n = 1..5 partitions (6 in the thorough tier) x every crash point k = 0..n (part files '
+        'text and pickle savers (also called with a file:// URL of the target) x target names plain and with every codec '
+        'extension (.gz .bz2 .xz .lzma .zip .tar .tar.gz .tar.bz2; n = 1..3 quick, 1..5 thorough, every crash point, '
+        'contents compared decoded) x n = 1..5 partitions (6 in the thorough tier) x every crash point k = 0..n (part files '
         'and marker; the single file for n = 1) x failure modes {before, after mkdir, torn after 0 / 1 / all bytes} x '
         '{max_retries 1; max_retries 2 with the fault on one attempt (masked by the retry); max_retries 2, 3 with the '
         'fault on every attempt}; computation of partition k failing on every attempt and on the first attempts only, '
@@ -47,7 +53,9 @@ RULE = ('cases (saver, max_retries, partitions, pre-state, write-fault plan, com
 ASSUMPTIONS = [
     'local file system, DummyPool (sequential tasks in partition order), catch_exceptions=False, retry_wait=0',
     'max_retries >= 1 (with 0 the real _run_task recurses without bound; outside the property, see C04)',
-    'target path without codec extension (compression is C08); lines are ASCII without line-break characters',
+    'the codecs are black boxes (C08): file contents are compared after decoding with the codec the file name selects; '
+    'on codec targets a torn write leaves nothing or everything of the compressed stream; lines are ASCII without '
+    'line-break characters',
     'pickle is a black box: the bytes pickle.dumps produces for a partition are given to the model in the case',
     'a failing write is an exception raised by Local.dump before it starts, at open(), or from the stream while '
     'writing (torn file); faults of os.makedirs itself and faults after the last byte are not injected',
@@ -83,29 +91,29 @@ def _content(saver, part):
 
 
 def kind(case):
-    saver, m, parts, pre, wf, cf = case
+    saver, m, parts, pre, wf, cf, ext = case
     s = ('text' if saver % 2 == TEXT else 'pickle') + ('-url' if saver >= 2 else '')
     p = ['absent', 'file', 'dir'][pre[0]]
     f = ('w' if wf else '') + ('c' if cf else '') or 'nofault'
-    return f'{s}/{p}/{f}'
+    return f'{s}{"+codec" if ext else ""}/{p}/{f}'
 
 
 def impl(case):
-    saver, m, parts, pre, wfaults, cfaults = case
+    saver, m, parts, pre, wfaults, cfaults, ext = case
     pre = tuple(pre)
     n = len(parts)
     d = os.path.join(_BASE, str(next(_counter)))
     os.makedirs(d)
-    target = os.path.join(d, 'out')
+    target = os.path.join(d, 'out' + ext)
     url = ('file://' if saver >= 2 else '') + target
     try:
-        faultfs.materialise(target, pre)
+        faultfs.materialise(target, pre, ext)
         ctx = Context(max_retries=m)
         data = [_elements(saver, p) for p in parts]
         rdd = ctx.parallelize(range(n), n).mapPartitionsWithIndex(faultfs.FaultyPartitions(data, cfaults))
         assert rdd.getNumPartitions() == n
         outcome = None
-        with faultfs.FaultFS(target, wfaults) as ff:
+        with faultfs.FaultFS(target, wfaults, ext) as ff:
             try:
                 if saver % 2 == TEXT:
                     rdd.saveAsTextFile(url)
@@ -115,7 +123,7 @@ def impl(case):
                 raise
             except BaseException as e:  # pylint: disable=broad-except
                 outcome = Err(type(e).__name__)   # BaseException: GeneratorExit is one of the injected classes
-        final = faultfs.snapshot(target)
+        final = faultfs.snapshot(target, ext)
         hist = list(ff.snapshots)
         locked = bool(ctx.locked)
         try:
@@ -148,7 +156,7 @@ def _complete(saver, parts, snap):
 
 def oracle(case, result):
     """The statement of C09 evaluated on what the implementation did (no reference to the Coq model)."""
-    saver, m, parts, pre, wfaults, cfaults = case
+    saver, m, parts, pre, wfaults, cfaults, ext = case
     pre = tuple(pre)
     n = len(parts)
     site = 'saveAsTextFile' if saver % 2 == TEXT else 'saveAsPickleFile'
@@ -195,7 +203,15 @@ def oracle(case, result):
             if final != (1, _content(saver, parts[0])):
                 return (f'{site}:success-without-complete-output', f'final {final!r}')
         elif not _complete(saver, parts, final):
-            return (f'{site}:success-without-complete-output', f'final {final!r}')
+            return (f'{site}:success-without-complete-output', f'final {final!r}, names {names!r}')
+        else:
+            # exactly <path>/_SUCCESS and the part files exist, nothing else, and the marker was written last
+            sfx = faultfs.codec_suffix(ext)
+            want = sorted(['_SUCCESS'] + [f'part-{i:05d}{sfx}' for i in range(n)], key=lambda x: x.encode())
+            if names != want:
+                return (f'{site}:complete-save-wrong-names', f'directory holds {names!r}, expected {want!r}')
+            if not hist or not _has_marker(hist[-1]) or any(_has_marker(h) for h in hist[:-1]):
+                return (f'{site}:marker-not-written-last', f'history {hist!r}')
     # 5. the error reaches the caller
     for i in range(n):
         if all((i, a) in {(c[0], c[1]) for c in cfaults} for a in range(1, m + 1)) and outcome is None:
@@ -229,7 +245,7 @@ def _norm(snap):
 
 
 def nontrivial(case, result):
-    return bool(case[4]) or bool(case[5]) or tuple(case[3]) != ABSENT
+    return bool(case[4]) or bool(case[5]) or tuple(case[3]) != ABSENT or bool(case[6])
 
 
 # ---------------------------------------------------------------- generation
@@ -285,6 +301,63 @@ def generate(rng, tier):
     for path in sorted(glob.glob(os.path.join(root, 'corpus', 'C09', '*.json'))):
         with open(path) as f:
             cases.append(uncanon(json.load(f)['case']))
+    cases += [c + ('',) for c in _plain_sweep(rng, quick)]
+    cases += _codec_sweep(rng, quick)
+    # random plans
+    for _ in range(700 if quick else 8000):
+        saver = rng.choice((TEXT, PICKLE)) + rng.choice((0, 0, 2))
+        n = rng.choice([1, 2, 2, 3, 3, 4, 5, 6, 8]) if not quick else rng.choice([1, 2, 2, 3, 3, 4, 5])
+        m = rng.choice([1, 1, 2, 2, 3, 4])
+        ext = rng.choice(EXTS) if rng.random() < 0.3 else ''
+        parts = _mk_parts(rng, saver, n)
+        pre = ABSENT if rng.random() < 0.85 else rng.choice(_pre_states(rng, saver))
+        horizon = n * m + 2
+        classes = rng.choice([[INJECTED], [INJECTED, OSERROR], [INJECTED, OSERROR, STOP, GENEXIT], [STOP], [STOP, GENEXIT]])
+        wf = []
+        for k in sorted(rng.sample(range(horizon), rng.choice([0, 1, 1, 2, 3, min(horizon, 6)]))):
+            mode = rng.choice([BEFORE, MKDIR, TORN])
+            # a compressed stream torn in the middle cannot be described without the codec: nothing or everything
+            j = (rng.choice([0, ALL_BYTES]) if ext else rng.choice([0, 1, 2, 5, 40])) if mode == TORN else 0
+            wf.append(_w(k, mode, j, rng.choice(classes)))
+        cf = []
+        for i in range(n):
+            r = rng.random()
+            if r < 0.12:
+                cls = rng.choice(classes + [NATURAL])
+                lazy = False if cls == NATURAL else rng.random() < 0.5
+                cf += [_c(i, a, cls, lazy) for a in range(1, m + 1)]
+            elif r < 0.35:
+                cf += [_c(i, a, rng.choice(classes), rng.random() < 0.5) for a in range(1, m + 1) if rng.random() < 0.5]
+        cases.append((saver, m, parts, pre, wf, cf, ext))
+    return cases
+
+
+def _codec_sweep(rng, quick):
+    """Targets whose name carries a codec extension: both savers, every crash point, compute faults, pre-states."""
+    cases = []
+    for ext in EXTS:
+        for saver in (TEXT, PICKLE):
+            ns = ([1, 2, 3] if ext in ('.gz', '.tar.gz', '.zip') else [1, 2]) if quick else [1, 2, 3, 4, 5]
+            for n in ns:
+                parts = _mk_parts(rng, saver, n)
+                cases.append((saver, 1, parts, ABSENT, [], [], ext))
+                points = range(n + 1) if n != 1 else [0]
+                for k in points:
+                    for mode, j in ((BEFORE, 0), (MKDIR, 0), (TORN, 0), (TORN, ALL_BYTES)):
+                        cases.append((saver, 1, parts, ABSENT, [_w(k, mode, j)], [], ext))
+                    width = 2 if (k < n and n != 1) else 1
+                    cases.append((saver, 2, parts, ABSENT, [_w(k + t, BEFORE, 0, rng.choice([INJECTED, OSERROR, STOP])) for t in range(width)], [], ext))
+                    cases.append((saver, 2, parts, ABSENT, [_w(k, TORN, 0)], [], ext))    # masked by the retry (parts)
+                for k in range(n):
+                    cases.append((saver, 1, parts, ABSENT, [], [_c(k, 1, rng.choice([INJECTED, NATURAL]), False)], ext))
+                    cases.append((saver, 2, parts, ABSENT, [], [_c(k, a, rng.choice([INJECTED, STOP])) for a in (1, 2)], ext))
+                for pre in rng.sample(_pre_states(rng, saver), 3):
+                    cases.append((saver, 1, parts, pre, [], [], ext))
+    return cases
+
+
+def _plain_sweep(rng, quick):
+    cases = []
     nmax = 5 if quick else 6
     for saver in (TEXT, PICKLE):
         for n in range(1, nmax + 1):
@@ -344,29 +417,6 @@ def generate(rng, tier):
                     cases.append((saver, 1, parts, pre, [], []))
                     cases.append((saver, 2, parts, pre, [_w(0, rng.choice([BEFORE, MKDIR, TORN]), 1, rng.choice([INJECTED, STOP]))], []))
                     cases.append((saver, 1, parts, pre, [], [_c(0, 1, rng.choice([INJECTED, STOP, GENEXIT]))]))
-    # random plans
-    for _ in range(700 if quick else 8000):
-        saver = rng.choice((TEXT, PICKLE)) + rng.choice((0, 0, 2))
-        n = rng.choice([1, 2, 2, 3, 3, 4, 5, 6, 8]) if not quick else rng.choice([1, 2, 2, 3, 3, 4, 5])
-        m = rng.choice([1, 1, 2, 2, 3, 4])
-        parts = _mk_parts(rng, saver, n)
-        pre = ABSENT if rng.random() < 0.85 else rng.choice(_pre_states(rng, saver))
-        horizon = n * m + 2
-        classes = rng.choice([[INJECTED], [INJECTED, OSERROR], [INJECTED, OSERROR, STOP, GENEXIT], [STOP], [STOP, GENEXIT]])
-        wf = []
-        for k in sorted(rng.sample(range(horizon), rng.choice([0, 1, 1, 2, 3, min(horizon, 6)]))):
-            mode = rng.choice([BEFORE, MKDIR, TORN])
-            wf.append(_w(k, mode, rng.choice([0, 1, 2, 5, 40]) if mode == TORN else 0, rng.choice(classes)))
-        cf = []
-        for i in range(n):
-            r = rng.random()
-            if r < 0.12:
-                cls = rng.choice(classes + [NATURAL])
-                lazy = False if cls == NATURAL else rng.random() < 0.5
-                cf += [_c(i, a, cls, lazy) for a in range(1, m + 1)]
-            elif r < 0.35:
-                cf += [_c(i, a, rng.choice(classes), rng.random() < 0.5) for a in range(1, m + 1) if rng.random() < 0.5]
-        cases.append((saver, m, parts, pre, wf, cf))
     return cases
 
 
@@ -400,6 +450,14 @@ def extra_evidence():
 
 
 def shrink_candidates(case):
+    saver, m, parts, pre, wf, cf, ext = case
+    for c in _shrink6((saver, m, parts, pre, wf, cf)):
+        yield c + (ext,)
+    if ext and not any(w[1] == TORN for w in wf):
+        yield (saver, m, parts, pre, wf, cf, '')
+
+
+def _shrink6(case):
     saver, m, parts, pre, wf, cf = case
     for i in range(len(wf)):
         yield (saver, m, parts, pre, wf[:i] + wf[i + 1:], cf)
